@@ -336,6 +336,9 @@ enum K {
     Quoted,
     /// backslash in the value of an unquoted expansion: escapes the next character
     ExpBs,
+    /// backslash that ends the value of an unquoted expansion with nothing after it in the word
+    /// (at most empty quotes): there is nothing to escape
+    TrailBs,
 }
 
 #[derive(Clone, Copy, Debug)]
@@ -346,7 +349,7 @@ struct Item {
 
 fn flatten(word: &[Seg], pattern_rules: bool) -> Result<Vec<Item>, &'static str> {
     let mut out = vec![];
-    for seg in word {
+    for (si, seg) in word.iter().enumerate() {
         match seg {
             Seg::Lit(t) => out.extend(t.chars().map(|c| Item { c, k: K::Plain })),
             Seg::Esc(c) => out.push(Item { c: *c, k: K::Quoted }),
@@ -363,7 +366,14 @@ fn flatten(word: &[Seg], pattern_rules: bool) -> Result<Vec<Item>, &'static str>
                 while i < cs.len() {
                     if cs[i] == '\\' && pattern_rules {
                         match cs.get(i + 1) {
-                            None => return Err("unquoted expansion ending in a backslash (POSIX: unspecified)"),
+                            None => {
+                                let rest_empty = word[si + 1..].iter().all(|s| matches!(s, Seg::SQ(t) | Seg::DQ(t) | Seg::QVar(t) if t.is_empty()));
+                                if !rest_empty {
+                                    return Err("unquoted expansion ending in a backslash (POSIX: unspecified)");
+                                }
+                                out.push(Item { c: '\\', k: K::TrailBs });
+                                i += 1;
+                            }
                             Some('/') => return Err("backslash from an expansion before a slash (POSIX: unspecified)"),
                             Some(n) => {
                                 out.push(Item { c: '\\', k: K::ExpBs });
@@ -583,6 +593,20 @@ pub fn expect(tree: &Tree, cwd: &[String], word: &[Seg], noglob: bool, q: Quirks
         Ok(i) => i,
         Err(e) => return Expect::Unspecified(e),
     };
+    if items.iter().any(|i| i.k == K::TrailBs) {
+        // A pattern that ends with an unescaped backslash either matches nothing or is invalid
+        // (POSIX leaves open which): without any other active pattern character both readings leave
+        // the field as it is. With one, the implementations differ in what the rest may match.
+        let other = items.iter().any(|i| i.k == K::ExpBs || (i.k == K::Plain && "*?[".contains(i.c)));
+        if other || noglob {
+            if !noglob {
+                return Expect::Unspecified("unquoted expansion ending in a backslash (POSIX: unspecified)");
+            }
+        } else {
+            let info = Info { components: fallback.split('/').count(), from_var: true, ..Info::default() };
+            return Expect::Literal(fallback, info);
+        }
+    }
     let mut info = Info {
         quoted_wildcard: items.iter().any(|i| i.k == K::Quoted && "*?[".contains(i.c)),
         active_backslash: items.iter().any(|i| i.k == K::ExpBs),
@@ -622,6 +646,7 @@ pub fn expect(tree: &Tree, cwd: &[String], word: &[Seg], noglob: bool, q: Quirks
                         pcs.push(PC { c: '\\', lit: true });
                     }
                 }
+                K::TrailBs => pcs.push(PC { c: '\\', lit: true }),
             }
         }
         let atoms = match fm::parse(&pcs) {
